@@ -3,6 +3,7 @@ import TwistedModel.Ssh.PrivKey
 import TwistedModel.Ssh.Lsh
 import TwistedModel.Ssh.OpenSSHv1
 import TwistedModel.Ssh.PubText
+import TwistedModel.Ssh.FromString
 /-!
 Driver glue for C37.  Bytes as hex (`-` = empty), integers in decimal.
   `C37 NS <hex>`            → hex
@@ -33,12 +34,14 @@ the OpenSSH public text line (`TwistedModel/Ssh/PubText.lean`) — `<pub>` is `r
   `C37 pubText <pub> <comment>` → hex of `_toPublicOpenSSH(comment)`     (`opaque` for `ec …`)
   `C37 fromPubText <hex>` → `PUBLIC <pub>`     `_fromString_PUBLIC_OPENSSH` (also `fromString(type="public_openssh")`)
   `C37 fromStringPub <hex>` → `PUBLIC <pub>`   `fromString(data)`: `_guessStringType`, then the reader it names
+  `C37 fromStringT <type hex|N> <passphrase hex|N> <hex>` → `PUBLIC <pub>`   `fromString(data, type, passphrase)`: the name
+      resolved through `type.upper()`, the passphrase (normalised bytes; `N` = None, `-` = empty) tested for truth
   `C37 guess <hex>` → `public_openssh` | `private_openssh` | `public_lsh` | `private_lsh` | `agentv3` | `blob` | `None`
       (`!raised IndexError`, `!raised Error` = binascii.Error, `!raised BadKeyError`, `opaque`, `other-format`)
 -/
 namespace Twisted.Drv.C37
 open Twisted.Py Twisted.Ssh.Wire Twisted.Ssh.KeyBlob Twisted.Ssh.PrivKey Twisted.Ssh.Sexpy Twisted.Ssh.Lsh
-  Twisted.Ssh.OpenSSHv1 Twisted.Ssh.PubText
+  Twisted.Ssh.OpenSSHv1 Twisted.Ssh.PubText Twisted.Ssh.FromString
 
 def showErr : Err → String
   | .struct => "!raised error"
@@ -184,6 +187,11 @@ def handleText (args : List String) : String :=
   | ["fromStringPub", h] => match unhex h with
     | some b => showPubP (fromStringGuess b)
     | none => "bad-op"
+  | ["fromStringT", t, p, h] =>
+    let optB (x : String) : Option (Option Bytes) := if x = "N" then some none else (unhex x).map some
+    match optB t, optB p, unhex h with
+    | some ty, some pw, some b => showPubP (fromString b ty pw)
+    | _, _, _ => "bad-op"
   | ["guess", h] => match unhex h with
     | some b => match guessStringType b with
       | .ok g => showGuess g
